@@ -340,6 +340,21 @@ func c11EmptyVersion(c *Ctx) {
 			startsDiff = true
 		}
 	}
+	if !startsDiff {
+		// the diff may be started by a helper that Open shares with other callers (a re-scan):
+		// judge the function of the same receiver that starts it
+		for _, f := range c.P.RepoFuncs(func(rel string) bool { return rel == "sqlite" }) {
+			if f.Signature.Recv() == nil || co.Signature.Recv() == nil || !types.Identical(f.Signature.Recv().Type(), co.Signature.Recv().Type()) {
+				continue
+			}
+			for _, call := range an.Calls(f) {
+				if an.CalleeIs(call, kvPkg, "DB", "StartDiff") {
+					startsDiff = true
+					sc = c.Scope(f)
+				}
+			}
+		}
+	}
 	// every place in Open (and the helpers split out of it) that takes the live table's tree does so
 	// on the nil side of a test of fromVer
 	for _, f := range sc.Funcs {
